@@ -857,6 +857,14 @@ func (ex *Exec) applyContract(st *State, c *ssa.Call, con0 *Contract, bindings [
 				lo, hi := ls.Lo, ls.Hi
 				ft.Lo, ft.Hi = &lo, &hi
 			}
+			if ls.Owner != nil {
+				// every cell owned by the closure must be writable here
+				ov := Term{"o!own", SInt}
+				ft.Obj = ov
+				ac := ex.assignableCond(st, ft)
+				cs = append(cs, Term{fmt.Sprintf("(forall ((o!own Int)) (! (=> %s %s) :pattern (%s)))", ls.member(ov).S, ac.S, ls.member(ov).S), SBool})
+				continue
+			}
 			ac := ex.assignableCond(st, ft)
 			if ls.Guard != nil {
 				ac = implies(*ls.Guard, ac)
@@ -902,7 +910,7 @@ func (ex *Exec) applyContract(st *State, c *ssa.Call, con0 *Contract, bindings [
 						cs = append(cs, c)
 						continue
 					}
-					cs = append(cs, and(g, eq(p[0], ls.Obj)))
+					cs = append(cs, and(g, ls.member(p[0])))
 				}
 				return or(cs...)
 			}, func(p []Term) Term {
@@ -970,16 +978,24 @@ func (ex *Exec) applyContract(st *State, c *ssa.Call, con0 *Contract, bindings [
 		cc := c.Common()
 		_, isFn := cc.Value.(*ssa.Function)
 		_, isClo := cc.Value.(*ssa.MakeClosure)
-		if cc.IsInvoke() || (!isFn && !isClo) {
-			// the call log records calls governed by the Parser contract
+		logs := []string{"parsley.Parser.Parse"}
+		explicit := ex.con != nil && len(ex.con.Logs) > 0
+		if explicit {
+			logs = ex.con.Logs
+		}
+		if explicit || cc.IsInvoke() || (!isFn && !isClo) {
+			// the call log records the calls governed by the logged contracts (default: the Parser contract)
+		outer:
 			for _, x := range cons {
-				if x.Target == "parsley.Parser.Parse" {
-					rec := CallRec{Args: args, Results: results}
-					if !cc.IsInvoke() {
-						rec.Args = append([]Term{intLit(0)}, args...)
+				for _, l := range logs {
+					if x.Target == l || strings.HasSuffix(x.Target, "/"+l) || strings.HasSuffix(x.Target, "."+l) {
+						rec := CallRec{Args: args, Results: results, Target: x.Target}
+						if !cc.IsInvoke() && x.Kind == "interface" {
+							rec.Args = append([]Term{intLit(0)}, args...)
+						}
+						st.calls = append(st.calls, rec)
+						break outer
 					}
-					st.calls = append(st.calls, rec)
-					break
 				}
 			}
 		}
@@ -1157,51 +1173,151 @@ func (ex *Exec) closureEnv(st *State, fc *Contract, bindings []ssa.Value, base *
 // checkRefinement: the function value passed for a function-typed parameter
 // must accept everything the callee contract allows (pre) and guarantee
 // everything it promises (post); only closures that assign nothing are supported.
-func (ex *Exec) checkRefinement(st *State, outer *Env, kc *Contract, fval ssa.Value, tag string, pos token.Pos) {
+func (ex *Exec) checkRefinement(st *State, outer *Env, kc0 *Contract, fval ssa.Value, tag string, pos token.Pos) {
+	if prm, ok := fval.(*ssa.Parameter); ok {
+		// a function-typed parameter handed on: its own callee contract must include whatever the callee contract
+		// of the receiving parameter consists of (both are wrappers around named functype contracts)
+		mine := ex.prog.Contracts[ex.key+"#"+prm.Name()]
+		if mine == nil {
+			ex.abort("parameter %s is passed for a parameter with a callee contract (%s) but has none itself", prm.Name(), kc0.Target)
+		}
+		have := map[string]bool{}
+		for _, c := range ex.prog.expandContract(mine) {
+			have[c.Target] = true
+		}
+		for _, c := range ex.prog.expandContract(kc0) {
+			if c == kc0 {
+				if len(c.Requires)+len(c.Ensures)+len(c.Assigns) > 0 {
+					ex.abort("passing parameter %s on: callee contract %s has clauses of its own (only includes are supported)", prm.Name(), kc0.Target)
+				}
+				continue
+			}
+			if !have[c.Target] {
+				ex.abort("passing parameter %s on: its callee contract does not include %s", prm.Name(), c.Target)
+			}
+		}
+		if len(mine.Requires)+len(mine.Ensures)+len(mine.Assigns) > 0 {
+			ex.abort("passing parameter %s on: its callee contract has clauses of its own (only includes are supported)", prm.Name())
+		}
+		return
+	}
 	fc, bindings := ex.closureContract(fval)
 	if fc == nil {
-		ex.abort("function value passed for parameter with a callee contract (%s) has no contract", kc.Target)
+		ex.abort("function value passed for parameter with a callee contract (%s) has no contract", kc0.Target)
 	}
-	for _, cl := range fc.Assigns {
-		if strings.TrimSpace(cl.Text) != "nothing" {
-			ex.abort("refinement of %s by %s: only functions that assign nothing are supported", kc.Target, fc.Name)
+	kcs := ex.prog.expandContract(kc0)
+	// footprint: a closure may assign nothing, or -- when the callee contract allows captures(self) -- its own captured variables
+	allowsCaptures := false
+	for _, kc := range kcs {
+		for _, cl := range kc.Assigns {
+			if strings.HasPrefix(strings.TrimSpace(cl.Text), "captures(") {
+				allowsCaptures = true
+			}
 		}
 	}
-	if len(kc.Params) != len(fc.Params) || len(kc.Results) != len(fc.Results) {
-		ex.abort("STALE-CONTRACT: %s and %s disagree on arity", kc.Target, fc.Name)
-	}
-	ke := &Env{st: st, pkgPath: kc.PkgPath, info: ex.prog.infoFor(kc.PkgPath), vars: map[string]BVal{}, cur: outer.cur, old: outer.cur, ghost: outer.ghost, ghost0: outer.ghost, allocLo: outer.allocLo}
-	for k, v := range outer.vars {
-		ke.vars[k] = v
+	for _, cl := range fc.Assigns {
+		for _, item := range splitList(cl.Text) {
+			item = strings.TrimSpace(item)
+			if item == "nothing" {
+				continue
+			}
+			isCap := false
+			for _, b := range fc.Captures {
+				if b.Name == item {
+					isCap = true
+				}
+			}
+			if !(isCap && allowsCaptures) {
+				ex.abort("refinement of %s by %s: the function assigns %s, which the callee contract does not allow", kc0.Target, fc.Name, item)
+			}
+		}
 	}
 	fe := ex.closureEnv(st, fc, bindings, outer)
-	for i, b := range kc.Params {
-		t := ex.typeOfBinder(kc, b)
-		v := st.sc.fresh("rf_"+b.Name, st.u().sortOf(t))
-		st.assumeWellFormed(v, t)
-		ke.vars[b.Name] = BVal{Val: v}
-		fe.vars[fc.Params[i].Name] = BVal{Val: v}
+	var kes []*Env
+	for _, kc := range kcs {
+		ke := &Env{st: st, pkgPath: kc.PkgPath, info: ex.prog.infoFor(kc.PkgPath), vars: map[string]BVal{}, cur: outer.cur, old: outer.cur, ghost: outer.ghost, ghost0: outer.ghost, allocLo: outer.allocLo}
+		if kc == kc0 {
+			for k, v := range outer.vars {
+				ke.vars[k] = v
+			}
+		}
+		kes = append(kes, ke)
 	}
+	bindParams := func(results bool) {
+		list0 := kc0.Params
+		flist := fc.Params
+		if results {
+			list0 = kc0.Results
+			flist = fc.Results
+		}
+		if len(list0) != len(flist) {
+			ex.abort("STALE-CONTRACT: %s and %s disagree on arity", kc0.Target, fc.Name)
+		}
+		for i, b := range list0 {
+			t := ex.typeOfBinder(kc0, b)
+			v := st.sc.fresh("rf_"+b.Name, st.u().sortOf(t))
+			st.assumeWellFormed(v, t)
+			fe.vars[flist[i].Name] = BVal{Val: v}
+			for ki, kc := range kcs {
+				bs := kc.Params
+				if results {
+					bs = kc.Results
+				}
+				off := 0
+				if !results && len(bs) == len(list0)+1 {
+					off = 1 // leading self binder
+					kes[ki].vars[bs[0].Name] = BVal{Val: ex.val(st, fval), SSA: fval}
+				}
+				if i+off < len(bs) {
+					kes[ki].vars[bs[i+off].Name] = BVal{Val: v}
+				}
+			}
+		}
+	}
+	bindParams(false)
 	var kpre, fpre []Term
-	for _, cl := range kc.Requires {
-		kpre = append(kpre, ke.eval(cl.Expr))
+	for ki, kc := range kcs {
+		for _, cl := range kc.Requires {
+			kpre = append(kpre, kes[ki].eval(cl.Expr))
+		}
 	}
 	for _, cl := range fc.Requires {
 		fpre = append(fpre, fe.eval(cl.Expr))
 	}
-	st.sc.comment("refinement of %s by %s", kc.Target, fc.Name)
+	st.sc.comment("refinement of %s by %s", kc0.Target, fc.Name)
 	// the checks below are implications over fresh constants: they must not be assumed afterwards as plain facts about them only
 	st.check("refine@"+tag+"/pre", "refine", implies(and(kpre...), and(fpre...)), "the function passed accepts every argument the callee contract allows ("+fc.Name+")", nil, pos)
-	for i, b := range kc.Results {
-		t := ex.typeOfBinder(kc, b)
-		v := st.sc.fresh("rf_"+b.Name, st.u().sortOf(t))
-		st.assumeWellFormed(v, t)
-		ke.vars[b.Name] = BVal{Val: v}
-		fe.vars[fc.Results[i].Name] = BVal{Val: v}
-	}
+	bindParams(true)
+	// post state of the function: the cells it may assign are unknown afterwards
 	var kpost, fpost []Term
-	for _, cl := range kc.Ensures {
-		kpost = append(kpost, ke.eval(cl.Expr))
+	if allowsCaptures && len(fc.Assigns) > 0 {
+		post := copyMap(outer.cur)
+		for _, cl := range fc.Assigns {
+			for _, ls := range fe.evalAssignsClause(cl) {
+				if ls.Ghost || ls.Region || ls.Owner != nil {
+					continue
+				}
+				f := st.fams[ls.Fam]
+				fresh := st.sc.freshFun("rfpost_"+ls.Fam, f.Args, f.Res)
+				saved := st.heap
+				st.heap = post
+				obj := ls.Obj
+				st.updateFamWhere(f, func(p []Term) Term { return eq(p[0], obj) }, func(p []Term) Term { return app(f.Res, fresh, p...) })
+				post = st.heap
+				st.heap = saved
+			}
+		}
+		fe.old = outer.cur
+		fe.cur = post
+		for _, ke := range kes {
+			ke.old = outer.cur
+			ke.cur = post
+		}
+	}
+	for ki, kc := range kcs {
+		for _, cl := range kc.Ensures {
+			kpost = append(kpost, kes[ki].eval(cl.Expr))
+		}
 	}
 	for _, cl := range fc.Ensures {
 		fpost = append(fpost, fe.eval(cl.Expr))
